@@ -536,7 +536,7 @@ func ParseContracts(file string, src string, pkgName string) ([]*Contract, error
 			}
 			curLoop = &LoopContract{Ordinal: k, Header: hdr}
 			cur.Loops[k] = curLoop
-		case "requires", "ensures", "invariant", "decreases", "ensures-assumed":
+		case "requires", "ensures", "invariant", "decreases", "ensures-assumed", "requires-assumed":
 			if cur == nil {
 				return nil, fmt.Errorf("%s:%d: clause outside func", file, ln+1)
 			}
